@@ -940,6 +940,9 @@ def rank_cache(rep, ex: Explorer, cls: str, compute: str, rule="ZRANK.cache"):
 
     summ = dict(wrappers.SUMMARIES)
     summ[f"{cls}.{compute}"] = comp
+    for c_ in ex.prog.mro(cls):
+        if c_ in ex.prog.classes and compute in ex.prog.classes[c_].methods:
+            summ[f"{c_}.{compute}"] = comp  # (the computation inherited instead of copied into the subclass)
     paths = ex.run(qual, setup, summaries=summ, key=f"cache-{cls}")
     n = 0
     stored = ("storedrank", W)
